@@ -31,14 +31,16 @@ def replay(out, pending):
 
 
 def run(out):
-    maxops = 4 if out.tier == "quick" else 6
+    maxops = 4 if out.tier == "quick" else 5
     out.functions = ["Reader::{new,bump,reset_buff,is_eof,current_range,tail_range}", "LuaGreenNodeBuilder::{token,start_node,finish_node,is_trivia,is_trivia_whitespace}",
                      "LuaParser::{init,bump,skip_trivia,parse_trivia_tokens,parse_comments,peek_next_token,peek_nth_token,previous_token_range,current_token_range}"]
     out.bounds = {"reader": "texts of every byte-width shape of <= %d characters, <= k+1 symbolic operations; Kani's panic / overflow / bounds / unwinding checks" % (3 if out.tier == "quick" else 4),
-                  "builder": "EVERY sequence (balanced or not) of <= %d builder operations inside the Chunk wrapper, all kinds symbolic: index / drain / insert in range, loops bounded" % maxops}
+                  "builder": "EVERY event sequence (balanced or not, wrapped in the root Block or raw) of <= %d inner events through LuaTreeBuilder::build, all kinds symbolic: index / drain / insert in range, loops bounded" % maxops}
     out.outside = ["stack overflow from deeply nested input (recursive descent; no stack model)", "the linear-time clause", "the lexer and the grammar themselves",
                    "longer operation sequences"]
-    out.assumptions = ["Vec / slice / iterator operations panic exactly when their index or range is out of bounds (exact models in mirsmt/vecmodel.py)",
+    out.assumptions = ["event streams have the shape the grammar gives them: NodeStart(Block) <inner> NodeEnd (parse_chunk); G1: a nested Block directly follows the non-trivia keyword token that "
+                       "introduces it; G2 (losslessness only): before the first token is eaten at most one open node is closed by error recovery, and the token after it is the unexpected, non-trivia one",
+                       "Vec / slice / iterator operations panic exactly when their index or range is out of bounds (exact models in mirsmt/vecmodel.py)",
                        "Kani's std model for the Reader harnesses"]
     pk.run_reader(out)
     mc = mflow.MContext(out)
